@@ -4,6 +4,7 @@ INVARIANT LayoutOK
 INVARIANT ExportedComputedHold
 INVARIANT SizeFieldAlways
 INVARIANT SizeFixedLemma
+INVARIANT ExportedSizeHolds
 INVARIANT ConfigRoundTripIdentity
 INVARIANT ParseExportIdentity
 INVARIANT SealedExportSealed
@@ -14,5 +15,6 @@ INVARIANT AltWidthReadBack
 INVARIANT AltViewsConsistent
 PROPERTY Frozen
 PROPERTY Local
+PROPERTY AnnouncedSizeIgnored
 PROPERTY AltWidthLocal
 CHECK_DEADLOCK FALSE
